@@ -9,17 +9,21 @@ TRUSTED = ['Lean 4.33 kernel', 'axioms: propext, Classical.choice, Quot.sound',
            'pandas column selection by name (df.loc[:, cols])',
            'hand model tied to src/mbi/dataset.py, domain.py by this correspondence run']
 ASSUMPTIONS = ['attribute names duplicate-free', 'integer-valued records']
-RULE = ('random domains of 1-4 attributes (sizes 1-4), 0-40 integer records incl. duplicates and boundary values n-1, n, n+1, -1; '
+RULE = ('random domains of 1-4 attributes (sizes 1-4; a fifth of the cases 3-4 attributes of sizes 5-9), stored as int64/32/16/8, uint8/16, float or category codes, 0-40 integer records incl. duplicates and boundary values n-1, n, n+1, -1; Domain operations are applied to fresh domains and to domains derived by chains of up to 3 project/marginalize/transpose/sort/merge/fromdict steps; '
         'optional dyadic weights; 0-2 successive projections in random order; extra unused columns; plus random Domain operations; '
         'non-trivial = at least 2 attributes and at least 2 records (datasets) or an argument list not in domain order (domains)')
 EXPLANATION = ('datavector of the (projected) dataset computed by src/mbi/dataset.py vs the Lean model over exact rationals, '
                'plus an independent contingency-table count for in-domain records; Domain methods vs the Lean list model')
 
 
+DTYPES = ['int64', 'int32', 'int16', 'int8', 'uint8', 'uint16', 'float64', 'float32', 'category-codes']
+
+
 def gen_dataset(r):
-    k = r.randint(1, 4)
+    wide = r.random() < 0.2      # more cells than a narrow storage type can index, every attribute still fits it
+    k = r.randint(3, 4) if wide else r.randint(1, 4)
     names = r.sample(['a', 'b', 'c', 'd', 'e'], k)
-    dom = [[n, r.choice([1, 2, 2, 3, 4])] for n in names]
+    dom = [[n, r.choice([5, 6, 7, 8, 9]) if wide else r.choice([1, 2, 2, 3, 4])] for n in names]
     extra = r.sample(['x', 'y'], r.randint(0, 2))
     cols = names + extra
     r.shuffle(cols)
@@ -51,7 +55,9 @@ def gen_dataset(r):
             p = r.sample(cur, r.randint(1, len(cur)))
         projs.append(p)
         cur = p
-    return {'op': 'dataset', 'cols': cols, 'rows': rows, 'dom': dom, 'weights': weights, 'projs': projs}
+    lo = min([v for row in rows for v in row], default=0)
+    dtype = r.choice(DTYPES) if (lo >= 0 and r.random() < 0.6) else r.choice(['int64', 'int32', 'int16', 'float64'])
+    return {'op': 'dataset', 'cols': cols, 'rows': rows, 'dom': dom, 'weights': weights, 'projs': projs, 'dtype': dtype}
 
 
 def impl_dataset(q):
@@ -59,6 +65,11 @@ def impl_dataset(q):
     from mbi import Domain, Dataset
     try:
         df = pd.DataFrame(np.array(q['rows'], dtype=int).reshape(len(q['rows']), len(q['cols'])), columns=q['cols'])
+        dt = q.get('dtype', 'int64')
+        if dt == 'category-codes':      # what Series.astype('category').cat.codes hands back: int8
+            df = df.astype('int8')
+        elif dt != 'int64':
+            df = df.astype(dt)
         dom = Domain([a for a, _ in q['dom']], [s for _, s in q['dom']])
         w = None if q['weights'] is None else np.array(q['weights'], dtype=float)
         D = Dataset(df, dom, w)
@@ -118,15 +129,82 @@ def cmp_dataset(resp, out):
     return None
 
 
-DOMFNS = ['project', 'marginalize', 'invert', 'canonical', 'axes', 'merge', 'contains', 'size', 'size_of', 'sort_size']
+DOMFNS = ['project', 'marginalize', 'invert', 'canonical', 'axes', 'merge', 'contains', 'size', 'size_of', 'sort_size', 'sort_name']
+
+
+def derive_spec(dom, pre):
+    """list-of-pairs reference for a chain of derivations (the set / product laws of the property)"""
+    for step in pre:
+        sizes = dict(map(tuple, dom))
+        names = [a for a, _ in dom]
+        if step[0] in ('project', 'transpose'):
+            dom = [[a, sizes[a]] for a in step[1]]
+        elif step[0] == 'marginalize':
+            dom = [[a, sizes[a]] for a in names if a not in step[1]]
+        elif step[0] == 'sort_size':
+            dom = sorted(dom, key=lambda p: p[1])
+        elif step[0] == 'sort_name':
+            dom = sorted(dom, key=lambda p: p[0])
+        elif step[0] == 'merge':
+            dom = dom + [list(p) for p in step[1] if p[0] not in names]
+        elif step[0] == 'fromdict':
+            dom = [list(p) for p in dom]
+    return dom
+
+
+def derive_impl(d, pre):
+    from mbi import Domain
+    for step in pre:
+        if step[0] == 'project':
+            d = d.project(step[1])
+        elif step[0] == 'transpose':
+            d = d.transpose(step[1])
+        elif step[0] == 'marginalize':
+            d = d.marginalize(step[1])
+        elif step[0] == 'sort_size':
+            d = d.sort('size')
+        elif step[0] == 'sort_name':
+            d = d.sort('name')
+        elif step[0] == 'merge':
+            d = d.merge(Domain([a for a, _ in step[1]], [s for _, s in step[1]]))
+        elif step[0] == 'fromdict':
+            d = Domain.fromdict(dict(zip(d.attrs, d.shape)))
+    return d
+
+
+def gen_pre(r, dom):
+    """0-3 derivation steps; the final operation is then applied to the derived object"""
+    pre = []
+    for _ in range(r.choice([0, 0, 1, 1, 2, 3])):
+        cur = derive_spec(dom, pre)
+        names = [a for a, _ in cur]
+        kind = r.choice(['project', 'project', 'marginalize', 'transpose', 'sort_size', 'sort_name', 'merge', 'fromdict'])
+        if kind == 'project':
+            if not names:
+                continue
+            pre.append(['project', r.sample(names, r.randint(1, len(names)))])
+        elif kind == 'transpose':
+            pre.append(['transpose', r.sample(names, len(names))])
+        elif kind == 'marginalize':
+            pre.append(['marginalize', r.sample(names + ['y'], r.randint(0, max(0, len(names) - 1)))])
+        elif kind == 'merge':
+            sizes = dict(map(tuple, cur))
+            n2 = r.sample(['a', 'b', 'c', 'd', 'e', 'f', 'g', 'h'], r.randint(0, 3))
+            pre.append(['merge', [[n, sizes.get(n, r.choice([1, 2, 3, 6]))] for n in n2]])
+        else:
+            pre.append([kind])
+    return pre
 
 
 def gen_domain(r):
     k = r.randint(1, 5)
     names = r.sample(['a', 'b', 'c', 'd', 'e', 'f'], k)
-    dom = [[n, r.choice([1, 2, 3, 4, 5])] for n in names]
+    dom0 = [[n, r.choice([1, 2, 3, 4, 5])] for n in names]
+    pre = gen_pre(r, dom0)
+    dom = derive_spec(dom0, pre)         # the reference value of the derived domain: what the model is given
+    names = [a for a, _ in dom]
     fn = r.choice(DOMFNS)
-    q = {'op': 'domain', 'fn': fn, 'dom': dom}
+    q = {'op': 'domain', 'fn': fn, 'dom': dom, 'dom0': dom0, 'pre': pre}
     pool = names + (['z'] if r.random() < 0.1 else [])
     if fn in ('project', 'axes', 'size_of'):
         q['attrs'] = r.sample(pool, r.randint(0, len(pool)))
@@ -143,10 +221,15 @@ def gen_domain(r):
 
 def impl_domain(q):
     from mbi import Domain
-    d = Domain([a for a, _ in q['dom']], [s for _, s in q['dom']])
     enc = lambda D: [list(x) for x in zip(D.attrs, D.shape)]
     fn = q['fn']
     try:
+        if q.get('pre'):
+            d = derive_impl(Domain([a for a, _ in q['dom0']], [s for _, s in q['dom0']]), q['pre'])
+            if enc(d) != q['dom']:
+                return ('derived', enc(d))
+        else:
+            d = Domain([a for a, _ in q['dom']], [s for _, s in q['dom']])
         if fn == 'project':
             return ('dom', enc(d.project(q['attrs'])))
         if fn == 'marginalize':
@@ -169,6 +252,8 @@ def impl_domain(q):
             return ('val', int(d.size(q['attrs'])))
         if fn == 'sort_size':
             return ('dom', enc(d.sort('size')))
+        if fn == 'sort_name':
+            return ('dom', enc(d.sort('name')))
     except (AssertionError, KeyError, ValueError, IndexError) as e:
         return ('raise', type(e).__name__)
 
@@ -177,9 +262,14 @@ def spec_domain(q, out):
     """set / product laws stated in the property, checked on the implementation's result"""
     if out[0] == 'raise':
         return None
+    if out[0] == 'derived':
+        return f'derivation chain {q["pre"]} of {q["dom0"]} gives {out[1]}, the set/product laws give {q["dom"]}'
     sizes = dict(map(tuple, q['dom']))
     names = [a for a, _ in q['dom']]
     fn = q['fn']
+    if fn == 'sort_name':
+        want = sorted(q['dom'], key=lambda p: p[0])
+        return None if out[1] == want else f'sort(name) -> {out[1]}, want {want}'
     if fn == 'project':
         want = [[a, sizes[a]] for a in q['attrs']]
         return None if out[1] == want else f'project -> {out[1]}, want {want}'
@@ -246,6 +336,9 @@ def run(res, drv, tier, seed):
             nt = len(q['dom']) >= 2 and len(q['rows']) >= 2
             res.case(q, nt, sample=q if len(q['rows']) == 5 else None)
             res.count('dataset:' + out[0])
+            res.count('storage dtype ' + q.get('dtype', 'int64'))
+            if len(out) > 3 and len(out[3]) > 256:
+                res.count('more than 256 cells')
             if q['weights'] is not None:
                 res.count('weighted')
             sizes = dict(map(tuple, q['dom']))
@@ -256,7 +349,9 @@ def run(res, drv, tier, seed):
             d = cmp_dataset(resp, out) if resp else None
             stream = 'C15.dataset'
         else:
-            nt = 'attrs' in q and q['attrs'] != [a for a, _ in q['dom'] if a in q['attrs']] or q['fn'] in ('merge', 'sort_size')
+            nt = 'attrs' in q and q['attrs'] != [a for a, _ in q['dom'] if a in q['attrs']] or q['fn'] in ('merge', 'sort_size', 'sort_name') or q.get('pre')
+            if q.get('pre'):
+                res.count('domain operation on a derived domain (chain of %d)' % len(q['pre']))
             res.case(q, bool(nt), sample=q if q['fn'] == 'merge' else None)
             res.count('domain:' + q['fn'])
             sp = spec_domain(q, out)
